@@ -3,6 +3,7 @@ package main
 import (
 	"fmt"
 	"go/ast"
+	"go/constant"
 	"go/token"
 	"go/types"
 	"sort"
@@ -81,6 +82,32 @@ func planUnroll(p *Prog, prev map[string][]byte, round int) (map[string][]byte, 
 				lastEnd = s.rs.End()
 				notes = append(notes, inlineNote{Helper: "table loop (unrolled)", Site: p.Pos(s.rs.Pos())})
 			}
+			if len(fileEdits[fname]) > 0 {
+				continue // look-ups of this file in the next round (positions inside unrolled loops have moved)
+			}
+			for _, s := range in.findMapLookups(pk, file) {
+				eds, ok := in.expandMapLookup(pk, file, s)
+				if !ok {
+					continue
+				}
+				trial := map[string][]byte{}
+				for _, f2 := range pk.Syntax {
+					n2 := in.file(f2.Pos())
+					es := append([]srcEdit{}, fileEdits[n2]...)
+					if n2 == fname {
+						es = append(es, eds...)
+					}
+					if len(es) > 0 {
+						trial[n2] = in.render(n2, f2, es, nil)
+					}
+				}
+				if err := in.checkPkg(pk, trial); err != nil {
+					p.InlineRejected = append(p.InlineRejected, fmt.Sprintf("table look-up at %s: %v", p.Pos(s.stmt.Pos()), err))
+					continue
+				}
+				fileEdits[fname] = append(fileEdits[fname], eds...)
+				notes = append(notes, inlineNote{Helper: "table look-up (as a switch)", Site: p.Pos(s.stmt.Pos())})
+			}
 		}
 	}
 	if len(fileEdits) == 0 {
@@ -133,6 +160,16 @@ func (in *inliner) findTables(pk *packages.Package, file *ast.File) []unrollSite
 				tobj := info.Uses[x]
 				if tobj == nil {
 					continue
+				}
+				// a package-level table that nothing ever assigns, indexes or takes the address of (every use is the
+				// operand of a range statement): its rows are the rows of the literal it is declared with
+				if tobj.Parent() == pk.Types.Scope() {
+					lit := in.pkgTableLit(pk, tobj)
+					if lit == nil {
+						continue
+					}
+					site.lit = lit
+					break
 				}
 				// declared by the statement just before, used nowhere else
 				if i == 0 {
@@ -218,6 +255,43 @@ func (in *inliner) findTables(pk *packages.Package, file *ast.File) []unrollSite
 	})
 	sort.Slice(out, func(i, j int) bool { return out[i].rs.Pos() < out[j].rs.Pos() })
 	return out
+}
+
+// pkgTableLit: the composite literal a package-level variable is declared with, when every use of the variable in the
+// package is the operand of a range statement (so that nothing can change or alias the table) and the variable is not
+// exported (other packages cannot touch it either).
+func (in *inliner) pkgTableLit(pk *packages.Package, tobj types.Object) *ast.CompositeLit {
+	if tobj.Exported() {
+		return nil
+	}
+	rangeOperands := map[*ast.Ident]bool{}
+	var lit *ast.CompositeLit
+	for _, f := range pk.Syntax {
+		ast.Inspect(f, func(n ast.Node) bool {
+			switch x := n.(type) {
+			case *ast.RangeStmt:
+				if id, ok := x.X.(*ast.Ident); ok {
+					rangeOperands[id] = true
+				}
+			case *ast.ValueSpec:
+				for i, nm := range x.Names {
+					if pk.TypesInfo.Defs[nm] == tobj && i < len(x.Values) && len(x.Names) == len(x.Values) {
+						lit, _ = x.Values[i].(*ast.CompositeLit)
+					}
+				}
+			}
+			return true
+		})
+	}
+	if lit == nil {
+		return nil
+	}
+	for id, o := range pk.TypesInfo.Uses {
+		if o == tobj && !rangeOperands[id] {
+			return nil
+		}
+	}
+	return lit
 }
 
 // pureStable: constants, and field paths of variables not in modified.
@@ -332,6 +406,7 @@ func (in *inliner) unroll(pk *packages.Package, file *ast.File, s unrollSite) ([
 		return nil, false
 	}
 	st, isStruct := s.elemT.Underlying().(*types.Struct)
+	arrT, isArr := s.elemT.Underlying().(*types.Array)
 	// rows: field name → expression text (struct) or "" → text (scalar)
 	type row map[string]string
 	var rows []row
@@ -385,6 +460,22 @@ func (in *inliner) unroll(pk *packages.Package, file *ast.File, s unrollSite) ([
 			if len(r) != st.NumFields() {
 				return nil, false
 			}
+		} else if isArr {
+			// rows that are small arrays ({`\\`, `\`}): entry k is r[k]
+			cl, ok := el.(*ast.CompositeLit)
+			if !ok || int64(len(cl.Elts)) != arrT.Len() {
+				return nil, false
+			}
+			ts, okT := in.typeString(arrT.Elem(), pk, file)
+			if !okT {
+				return nil, false
+			}
+			for i, fe := range cl.Elts {
+				if _, isKV := fe.(*ast.KeyValueExpr); isKV || !pureStable(info, fe, modified) {
+					return nil, false
+				}
+				r[fmt.Sprintf("[%d]", i)] = ts + "(" + in.text(fe) + ")"
+			}
 		} else {
 			if _, isCL := el.(*ast.CompositeLit); isCL || !pureStable(info, el, modified) {
 				return nil, false
@@ -412,11 +503,21 @@ func (in *inliner) unroll(pk *packages.Package, file *ast.File, s unrollSite) ([
 				covered[id] = true
 			}
 		}
+		if ix, ok := n.(*ast.IndexExpr); ok && isArr {
+			if id, isId := ix.X.(*ast.Ident); isId && info.Uses[id] == s.vObj {
+				if tv, okV := info.Types[ix.Index]; okV && tv.Value != nil {
+					if k, exact := constant.Int64Val(tv.Value); exact {
+						uses = append(uses, use{in.off(ix.Pos()), in.off(ix.End()), fmt.Sprintf("[%d]", k)})
+						covered[id] = true
+					}
+				}
+			}
+		}
 		return true
 	})
 	ast.Inspect(rs.Body, func(n ast.Node) bool {
 		if id, ok := n.(*ast.Ident); ok && info.Uses[id] == s.vObj && !covered[id] {
-			if isStruct {
+			if isStruct || isArr {
 				okUses = false
 			} else {
 				uses = append(uses, use{in.off(id.Pos()), in.off(id.End()), ""})
